@@ -11,6 +11,8 @@
 (***************************************************************************)
 EXTENDS SplineAlg
 
+CONSTANT PROP      \* the property whose view of the events is judged ("ALL" = every conjunct)
+For(p) == PROP = "ALL" \/ PROP = p
 Has(ev, k) == k \in DOMAIN ev
 B(x) == x = 1
 Sane(ev) == ~Has(ev, "harness_error") /\ ev.big = 0
@@ -29,31 +31,36 @@ SupOf(j) == Sup(j.g, j.s, j.e)
 
 GridNewOK(ev) ==
   IF GridValid(ev.pts)
-  THEN /\ ev.out = "ok" /\ ev.res = ev.pts
-       /\ ev.size = Len(ev.pts) /\ ev.empty = 0
-       /\ ev.front = ev.pts[1] /\ ev.back = ev.pts[Len(ev.pts)] /\ ev.iter = ev.pts
-       /\ B(ev.copy_eq) /\ B(ev.copy_shares)
-  ELSE Threw(ev, "out") /\ ev.out_what = 1
-       /\ (Len(ev.pts) < 2 => ev.out_code = "MISSING_DATA")
+  THEN /\ For("C11") => ev.out = "ok"
+       /\ For("C10") /\ ev.out = "ok" => GridValid(ev.res)
+       /\ For("C13") /\ ev.out = "ok" =>
+             /\ ev.res = ev.pts /\ ev.size = Len(ev.pts) /\ ev.empty = 0
+             /\ ev.front = ev.pts[1] /\ ev.back = ev.pts[Len(ev.pts)] /\ ev.iter = ev.pts
+             /\ B(ev.copy_eq)
+       /\ For("C14") /\ ev.out = "ok" => B(ev.copy_shares)
+  ELSE For("C11") => /\ Threw(ev, "out") /\ ev.out_what = 1
+                     /\ (Len(ev.pts) < 2 => ev.out_code = "MISSING_DATA")
 
-GridFindOK(ev) == IdxRes(ev, "find", GridFind(ev.g, ev.x))
+GridFindOK(ev) == For("C13") => IdxRes(ev, "find", GridFind(ev.g, ev.x))
 
 GridAtOK(ev) ==
   LET inr == ev.top = 0 /\ ev.i < Len(ev.g)
-  IN /\ RatRes(ev, "at", IF inr THEN ev.g[ev.i + 1] ELSE NoneR)
-     /\ (inr => ev.sub_v = ev.g[ev.i + 1])
+  IN /\ For("C13") \/ (For("C09") /\ ~inr) => RatRes(ev, "at", IF inr THEN ev.g[ev.i + 1] ELSE NoneR)
+     /\ For("C13") => (inr => ev.sub_v = ev.g[ev.i + 1])
 
 SupNewOK(ev) ==
   LET small == ev.stop = 0 /\ ev.etop = 0
       S == Sup(ev.g, ev.s, ev.e)
-  IN /\ IF small /\ SupValid(S)
-        THEN ev.out = "ok" /\ SupOf(ev.res) = S
-        ELSE Threw(ev, "out")
-     /\ SupOf(ev.mkempty) = SupEmptyOn(ev.g)
-     /\ SupOf(ev.mkwhole) = SupWhole(ev.g)
+  IN /\ For("C11") => IF small /\ SupValid(S) THEN ev.out = "ok" ELSE Threw(ev, "out")
+     /\ For("C10") => /\ (ev.out = "ok" => SupValid(SupOf(ev.res)))
+                       /\ SupValid(SupOf(ev.mkempty)) /\ SupValid(SupOf(ev.mkwhole))
+     /\ For("C13") => /\ (ev.out = "ok" => SupOf(ev.res) = S)
+                       /\ SupOf(ev.mkempty) = SupEmptyOn(ev.g)
+                       /\ SupOf(ev.mkwhole) = SupWhole(ev.g)
 
 SupReadOK(ev) ==
   LET S == SupOf(ev.a) IN
+  For("C13") =>
   /\ SupValid(S)
   /\ ev.size = SupSize(S) /\ B(ev.empty) = SupIsEmpty(S)
   /\ B(ev.hasiv) = SupHasIntervals(S) /\ ev.nint = SupNInt(S)
@@ -65,32 +72,39 @@ SupIdxOK(ev) ==
   LET S == SupOf(ev.a)
       small == ev.top = 0
       i == ev.i
-  IN /\ ev.rel = (IF small THEN RelFromAbs(S, i) ELSE None)
-     /\ ev.iv = (IF small THEN IvFromAbs(S, i) ELSE None)
-     /\ IdxRes(ev, "abs", IF small THEN AbsFromRel(S, i) ELSE None)
-     /\ RatRes(ev, "at", IF small THEN SupAt(S, i) ELSE NoneR)
-     /\ (Has(ev, "sub_v") => small /\ ev.sub_v = SupAt(S, i))
-     \* mutually inverse on contained indices
-     /\ (ev.rel # None => AbsFromRel(S, ev.rel) = i)
+      inr == small /\ SupAt(S, i) # NoneR
+  IN /\ For("C13") =>
+          /\ ev.rel = (IF small THEN RelFromAbs(S, i) ELSE None)
+          /\ ev.iv = (IF small THEN IvFromAbs(S, i) ELSE None)
+          /\ IdxRes(ev, "abs", IF small THEN AbsFromRel(S, i) ELSE None)
+          /\ RatRes(ev, "at", IF small THEN SupAt(S, i) ELSE NoneR)
+          /\ (Has(ev, "sub_v") => small /\ ev.sub_v = SupAt(S, i))
+          \* mutually inverse on contained indices
+          /\ (ev.rel # None => AbsFromRel(S, ev.rel) = i)
+     \* checked accessors throw for every index outside the view (C09)
+     /\ For("C09") => (~inr => Threw(ev, "at") /\ Threw(ev, "abs"))
 
 SupBinOK(ev) ==
   LET a == SupOf(ev.a)
       b == SupOf(ev.b)
-  IN /\ SupOf(ev.a_after) = a /\ SupOf(ev.b_after) = b         \* operands untouched
-     /\ B(ev.same) = GridEq(a.g, b.g)
-     /\ B(ev.eq) = SupEq(a, b) /\ B(ev.ne) = ~SupEq(a, b)
+  IN /\ For("C14") => SupOf(ev.a_after) = a /\ SupOf(ev.b_after) = b         \* operands untouched
+     /\ For("C13") => /\ B(ev.same) = GridEq(a.g, b.g)
+                       /\ B(ev.eq) = SupEq(a, b) /\ B(ev.ne) = ~SupEq(a, b)
      /\ IF GridEq(a.g, b.g)
-        THEN /\ ev.un = "ok" /\ UnionPost(a, b, SupOf(ev.un_v))
-             /\ ev.in = "ok" /\ InterPost(a, b, SupOf(ev.in_v))
-        ELSE /\ ThrewCode(ev, "un", "DIFFERING_GRIDS")
-             /\ ThrewCode(ev, "in", "DIFFERING_GRIDS")
+        THEN /\ For("C13") \/ For("C08") =>
+                  /\ ev.un = "ok" /\ UnionPost(a, b, SupOf(ev.un_v))
+                  /\ ev.in = "ok" /\ InterPost(a, b, SupOf(ev.in_v))
+             /\ For("C10") => SupValid(SupOf(ev.un_v)) /\ SupValid(SupOf(ev.in_v))
+        ELSE For("C08") => /\ ThrewCode(ev, "un", "DIFFERING_GRIDS")
+                           /\ ThrewCode(ev, "in", "DIFFERING_GRIDS")
 
 SupTriOK(ev) ==
   LET a == SupOf(ev.a)
       b == SupOf(ev.b)
       c == SupOf(ev.c)
       all == SupPts(a) \cup SupPts(b) \cup SupPts(c)
-  IN /\ SupOf(ev.u_l) = SupOf(ev.u_r) /\ SupOf(ev.i_l) = SupOf(ev.i_r)
+  IN For("C13") =>
+     /\ SupOf(ev.u_l) = SupOf(ev.u_r) /\ SupOf(ev.i_l) = SupOf(ev.i_r)
      /\ SupValid(SupOf(ev.u_l)) /\ SupPts(SupOf(ev.u_l)) = Hull(all)
      /\ SupValid(SupOf(ev.i_l)) /\ SupPts(SupOf(ev.i_l)) = SupPts(a) \cap SupPts(b) \cap SupPts(c)
 
@@ -105,5 +119,104 @@ EventOK_Sup(ev) ==
     [] ev.op = "SupTri" -> SupTriOK(ev)
     [] OTHER -> FALSE
 
-EventOK(ev) == Sane(ev) /\ EventOK_Sup(ev)
+
+-----------------------------------------------------------------------------
+\* splines (C02, C03, C08, C10, C11, C14, C15)
+
+SplOf(j) == Spl(j.g, j.s, j.e, j.o, j.c)
+
+SplNewOK(ev) ==
+  LET p == Spl(ev.g, ev.s, ev.e, ev.o, ev.c)
+  IN /\ For("C11") => IF SplValid(p) THEN ev.out = "ok" ELSE Threw(ev, "out") /\ ev.out_what = 1
+     /\ For("C10") => /\ (ev.out = "ok" => SplValid(SplOf(ev.res)))
+                       /\ SplValid(SplOf(ev.mkempty))
+     /\ For("C03") => /\ (ev.out = "ok" => SplOf(ev.res) = p)
+                       /\ SplOf(ev.mkempty) = EmptySpl(ev.g, ev.o)
+
+\* front()/back(): the end points of the support; must throw for an empty
+\* support; for a point-like support (no interval, one point) the pinned code
+\* returns the point - "throws" and "returns the point" are both accepted.
+EndOK(ev, k, p, v) ==
+  IF SupIsEmpty(SplSup(p)) THEN Threw(ev, k)
+  ELSE IF SupHasIntervals(SplSup(p)) THEN OkVal(ev, k, v)
+  ELSE Threw(ev, k) \/ OkVal(ev, k, v)
+
+SplEvalOK(ev) ==
+  LET p == SplOf(ev.a) IN
+  /\ For("C14") => SplOf(ev.a_after) = p
+  /\ For("C02") =>
+       /\ SplValid(p) /\ Len(ev.vals) = Len(ev.xs)
+       /\ \A i \in DOMAIN ev.xs : EvalPost(p, ev.xs[i], ev.vals[i])
+       /\ EndOK(ev, "front", p, SupFront(SplSup(p)))
+       /\ EndOK(ev, "back", p, SupBack(SplSup(p)))
+
+SplUnOK(ev) ==
+  LET a == SplOf(ev.a)
+      k == ev.k
+      results == {ev.mulr, ev.mull, ev.neg, ev.imul, ev.up1, ev.up3}
+                 \cup (IF Has(ev, "div") THEN {ev.div, ev.idiv} ELSE {})
+  IN /\ For("C14") => SplOf(ev.a_after) = a /\ B(ev.copy_distinct)
+     /\ For("C10") => \A r \in results : SplValid(SplOf(r))
+     /\ For("C03") =>
+          /\ SplValid(a)
+          /\ ScalePost(a, k, SplOf(ev.mulr)) /\ ScalePost(a, k, SplOf(ev.mull))
+          /\ ScalePost(a, FromInt(-1), SplOf(ev.neg))
+          /\ ScalePost(a, k, SplOf(ev.imul)) /\ B(ev.imul_ref)
+          /\ (~RIsZero(k) => /\ ScalePost(a, RDiv(ROne, k), SplOf(ev.div))
+                             /\ ScalePost(a, RDiv(ROne, k), SplOf(ev.idiv)) /\ B(ev.idiv_ref))
+          /\ SameFnPost(a, SplOf(ev.up1), a.o + 1) /\ SameFnPost(a, SplOf(ev.up3), a.o + 3)
+     /\ For("C15") => IsZeroPost(a, B(ev.iszero)) /\ B(ev.copy_eq)
+
+SplBinOK(ev) ==
+  LET a == SplOf(ev.a)
+      b == SplOf(ev.b)
+      arith == /\ ev.add = "ok" /\ AddPost(a, b, SplOf(ev.add_v))
+               /\ ev.sub = "ok" /\ SubPost(a, b, SplOf(ev.sub_v))
+               /\ ev.mul = "ok" /\ MulPost(a, b, SplOf(ev.mul_v))
+               /\ (Has(ev, "iadd") => /\ ev.iadd = "ok" /\ AddPost(a, b, SplOf(ev.iadd_v))
+                                      /\ ev.isub = "ok" /\ SubPost(a, b, SplOf(ev.isub_v)))
+  IN /\ For("C14") => /\ SplOf(ev.a_after) = a /\ SplOf(ev.b_after) = b
+                       /\ (Has(ev, "iadd") /\ ev.iadd # "ok" => SplOf(ev.iadd_v) = a)
+                       /\ (Has(ev, "isub") /\ ev.isub # "ok" => SplOf(ev.isub_v) = a)
+     /\ For("C15") => /\ (Has(ev, "eq") => /\ SplEqPost(a, b, B(ev.eq)) /\ B(ev.ne) = ~B(ev.eq))
+                       /\ (GridEq(a.g, b.g) =>
+                            /\ OverlapPost(a, b, B(ev.overlap))
+                            /\ (ev.mul = "ok" => (B(ev.overlap) <=> SupHasIntervals(SplSup(SplOf(ev.mul_v))))))
+     /\ For("C10") => (\A k \in {"add_v", "sub_v", "mul_v", "iadd_v", "isub_v"} : (Has(ev, k) => SplValid(SplOf(ev[k]))))
+     /\ IF GridEq(a.g, b.g)
+        THEN For("C03") \/ For("C08") => SplValid(a) /\ SplValid(b) /\ arith
+        ELSE For("C08") =>
+             /\ ThrewCode(ev, "add", "DIFFERING_GRIDS") /\ ThrewCode(ev, "sub", "DIFFERING_GRIDS")
+             /\ ThrewCode(ev, "mul", "DIFFERING_GRIDS")
+             /\ (Has(ev, "iadd") => /\ ThrewCode(ev, "iadd", "DIFFERING_GRIDS") /\ SplOf(ev.iadd_v) = a
+                                    /\ ThrewCode(ev, "isub", "DIFFERING_GRIDS") /\ SplOf(ev.isub_v) = a)
+
+SplLinOK(ev) ==
+  LET ss == [i \in DOMAIN ev.ss |-> SplOf(ev.ss[i])]
+      cs == ev.cs
+      sizesOK == Len(cs) = Len(ss) /\ Len(cs) >= 1
+      gridsOK == \A i \in DOMAIN ss : ss[i].g = ss[1].g
+  IN /\ For("C14") => \A i \in DOMAIN ss : SplOf(ev.ss_after[i]) = ss[i]
+     /\ For("C10") => (\A k \in {"lc_v", "lci_v"} : (Has(ev, k) => SplValid(SplOf(ev[k]))))
+     /\ IF sizesOK /\ gridsOK
+        THEN For("C03") \/ For("C08") \/ For("C11") =>
+             /\ ev.lc = "ok" /\ LinCombPost(cs, ss, SplOf(ev.lc_v))
+             /\ ev.lci = "ok" /\ LinCombPost(cs, ss, SplOf(ev.lci_v))
+        ELSE IF sizesOK THEN For("C08") => ThrewCode(ev, "lc", "DIFFERING_GRIDS") /\ ThrewCode(ev, "lci", "DIFFERING_GRIDS")
+        ELSE For("C11") => Threw(ev, "lc") /\ Threw(ev, "lci")
+
+EventOK_Spl(ev) ==
+  CASE ev.op = "SplNew" -> SplNewOK(ev)
+    [] ev.op = "SplEval" -> SplEvalOK(ev)
+    [] ev.op = "SplUn" -> SplUnOK(ev)
+    [] ev.op = "SplBin" -> SplBinOK(ev)
+    [] ev.op = "SplLin" -> SplLinOK(ev)
+    [] OTHER -> FALSE
+
+SupOps == {"GridNew", "GridFind", "GridAt", "SupNew", "SupRead", "SupIdx", "SupBin", "SupTri"}
+SplOps == {"SplNew", "SplEval", "SplUn", "SplBin", "SplLin"}
+EventOK(ev) == /\ Sane(ev)
+               /\ CASE ev.op \in SupOps -> EventOK_Sup(ev)
+                    [] ev.op \in SplOps -> EventOK_Spl(ev)
+                    [] OTHER -> FALSE
 =============================================================================
